@@ -131,6 +131,23 @@ func NewDriver(job *Job, dir string, out func(*Line)) (*Driver, error) {
 			toks[op.C] = true
 		}
 	}
+	// a passphrase given to CreateWallet (or used as public passphrase) must come from the wallet's own alphabet; the
+	// import paths accept any passphrase of legal length - wallets that are only ever imported get one with
+	// characters outside that alphabet every other time
+	narrow := map[string]bool{}
+	for _, q := range job.U.Pub0 {
+		narrow[q] = true
+	}
+	for _, op := range job.H {
+		if op.A == "chpub" {
+			narrow[op.C] = true
+		}
+		if op.A == "create" {
+			if wd, ok := job.U.Wal[op.W]; ok {
+				narrow[wd.Pass] = true
+			}
+		}
+	}
 	names := make([]string, 0, len(toks))
 	for t := range toks {
 		names = append(names, t)
@@ -143,6 +160,14 @@ func NewDriver(job *Job, dir string, out func(*Line)) (*Driver, error) {
 		}
 		for {
 			p := genPass(d.Rnd, passLen(d.Rnd))
+			if !narrow[t] && d.Rnd.Intn(2) == 0 {
+				const wide = " -_!.,:+*/=~"
+				b := []byte(p)
+				for k := 0; k < 1+d.Rnd.Intn(2); k++ {
+					b[d.Rnd.Intn(len(b))] = wide[d.Rnd.Intn(len(wide))]
+				}
+				p = string(b)
+			}
 			clash := false
 			for _, q := range d.Pass {
 				if strings.Contains(q, p) || strings.Contains(p, q) {
